@@ -32,7 +32,7 @@ ASSUMPTIONS = [
     "a sentinel still present after 20 s while the tracker is alive counts as 'not deleted at zero'; a dead tracker as 'tracker stopped'",
 ]
 SHARDS = {"quick": 10, "thorough": 14}
-FLOORS = {"quick": {"scripts": 120, "requests_checked": 2000, "malformed_requests": 200, "clients_killed": 40, "deletions_at_zero": 150},
+FLOORS = {"quick": {"scripts": 120, "requests_checked": 1500, "malformed_requests": 200, "clients_killed": 40, "deletions_at_zero": 150},
           "thorough": {"scripts": 2500, "requests_checked": 40000, "malformed_requests": 4000, "clients_killed": 800, "deletions_at_zero": 3000}}
 CLIENT = os.path.join(harness.VERIF, "checks", "c20_client.py")
 
